@@ -142,7 +142,32 @@ def _wrap_pair(name, orig):
     return method
 
 
+_fn_calls = []      # (function name, args, kwargs, result) of the pure functions the tests call
+
+
+def _wrap_fn(mod, name):
+    orig = getattr(mod, name)
+
+    def f(*a, **kw):
+        with _Top() as top:
+            res = orig(*a, **kw)
+            if top and len(_fn_calls) < 5000:
+                _fn_calls.append((name, a, kw, res))
+            return res
+    f.__name__ = name
+    f.__doc__ = orig.__doc__
+    setattr(mod, name, f)
+    return f
+
+
 def pytest_configure(config):
+    import curies
+    from curies import discovery as _disc
+    from curies import w3c as _w3c
+    for nm in ("is_w3c_prefix", "is_w3c_curie"):
+        f = _wrap_fn(_w3c, nm)
+    f = _wrap_fn(_disc, "discover")
+    curies.discover = f
     C = _api.Converter
     C.__init__ = _wrap_init(C.__init__)
     C.add_record = _wrap_add_record(C.add_record)
@@ -165,3 +190,16 @@ def pytest_sessionfinish(session, exitstatus):
     batch = impl.batch_json(_I, traces, [])
     with open(out, "w") as f:
         json.dump(batch, f, separators=(",", ":"))
+    # the pure-function calls, in a form the checks of C19 / C20 turn into TraceFn batches
+    fn = []
+    raw = lambda v: v if isinstance(v, str) else str(v)  # noqa: E731
+    for name, a, kw, res in _fn_calls:
+        if name.startswith("is_w3c") and a and isinstance(a[0], str):
+            fn.append({"f": name, "x": a[0], "out": bool(res)})
+        elif name == "discover" and isinstance(res, _api.Converter) and a and isinstance(a[0], (list, tuple, set, frozenset)):
+            conv = kw.get("converter")
+            fn.append({"f": "discover", "uris": sorted(a[0]) if isinstance(a[0], (set, frozenset)) else list(a[0]),
+                       "delims": list(kw["delimiters"]) if kw.get("delimiters") else None, "cutoff": kw.get("cutoff"), "meta": kw.get("metaprefix"),
+                       "conv": None if conv is None else impl.proj_conv(raw, conv), "result": impl.proj_conv(raw, res)})
+    with open(out + ".fn.json", "w") as f:
+        json.dump(fn, f)
